@@ -50,6 +50,14 @@ def gen_shape(a, f):
     return Shaper(a.p, a.cg, "r").shape(f, GEN_NAMES)
 
 
+def block_loop(term):
+    """body of the (single) block loop of a generator term, wherever it is nested; None if not exactly one"""
+    loops = [t for t in flat(term) if t[0] == "while"]
+    if len(loops) != 1:
+        return None
+    return loops[0][2]
+
+
 def block_writer_shape(a, f):
     return Shaper(a.p, a.cg, "w").shape(f, ["C", "B", "L"])
 
@@ -156,9 +164,11 @@ def run(ctx):
     gens = generators(a)
     for role, (f, call, init) in sorted(gens.items()):
         term = gen_shape(a, f)
-        loops = [t for t in term if t[0] == "while"]
-        ok = len(loops) == 1
-        body = loops[0][2] if ok else []
+        body = block_loop(term)
+        if body is None:
+            ctx.unrecognised("C05.R2", f"{f.qualname}: block loop", f.where(), "expected exactly one `while` block loop")
+            continue
+        ok = True
         seq = [t[0] for t in body if t[0] in ("V", "T", "R", "for", "yield")]
         if role == "records":
             want = ["V", "T", "for", "R"]
